@@ -101,6 +101,9 @@ def run(ck):
     driver = ck.lean_exe("c46driver", "TfelVerif/C46/Driver.lean")
     res = ck.lean(PROPS, PROPS)
     ck.lean_violations(res)
+    if ck.tier == "thorough" and res.ok:
+        for m, log in ck.leanchecker(PROPS):
+            ck.violation("leanchecker:" + m, "leanchecker rejects " + m, {"log": log}, False)
 
     scen = gen_scenarios(rng, ck.quick)
     nworkers = 4
